@@ -402,3 +402,57 @@ package originium
 //@   invariant found ==> (ex(L, 0, level, ex(p, 0, ListLen[ref(lm.levels[L])], fromTable(lm, best, L, p))) || ex(p, 0, epos(e, tables), fromTable(lm, best, level, p)))
 //@   invariant forall(Int(L), Int(p), (0 <= L && L < level && 0 <= p && p < ListLen[ref(lm.levels[L])]) ==> accounted(lm, key, found, best, L, p))
 //@   invariant all(p, 0, epos(e, tables), accounted(lm, key, found, best, level, p))
+//
+// ---------------------------------------------------------------------------------------------
+// C09: compaction. discardStaleEntries is the version garbage collector: with watermark low it
+// keeps every version above low and, per user key, the newest version at or below low.
+// Ghost witnesses: ResSrc[j] / LatSrc[k] = index in `entries` the j-th result / the remembered
+// newest-below-low entry of user key k came from.
+//@ ghost DiscLow Int
+//@ ghost ResSrc (Array Int Int)
+//@ ghost LatSrc (Array Str Int)
+//@ func (*originium.oracle).discardAtOrBelow -> r
+//@ props C09 C05
+//@ requires o.readMark != nil
+//@ assigns WmLow
+//@ ensures r >= old(WmLow)[ref(o.readMark)] && r <= WmMax[ref(o.readMark)] && WmLow[ref(o.readMark)] == r
+//@ ensures forall(Int(t), WmOpen[ref(o.readMark)][t] > 0 ==> r <= t, trig(WmOpen[ref(o.readMark)][t]))
+//
+//@ func (*originium.levelManager).discardStaleEntries$1 -> r
+//@ props C09
+//@ requires wf(a.Key) && wf(b.Key)
+//@ ensures r == cmp(a.Key, b.Key)
+//
+//@ define keptBelow(es, n, low, i) = ts(es[i].Key) <= low && all(x, 0, n, (uk(es[x].Key) == uk(es[i].Key) && ts(es[x].Key) <= low) ==> ts(es[x].Key) <= ts(es[i].Key))
+//@ func (*originium.levelManager).discardStaleEntries -> r
+//@ props C09 C05
+//@ requires lm.db != nil && lm.db.oracle != nil && lm.db.oracle.readMark != nil && all(i, 0, len(entries), wf(entries[i].Key))
+//@ assigns WmLow, DiscLow, ResSrc, LatSrc, SortSrc, SortInv
+//@ ensures DiscLow == 0 ==> r == entries
+//@ ensures DiscLow != 0 ==> arrid(r) >= old(alloc)
+//@ ensures DiscLow != 0 ==> all(j, 0, len(r), 0 <= ResSrc[SortSrc[j]] && ResSrc[SortSrc[j]] < len(entries) && r[j] == entries[ResSrc[SortSrc[j]]] && (ts(r[j].Key) > DiscLow || keptBelow(entries, len(entries), DiscLow, ResSrc[SortSrc[j]])))
+//@ ensures DiscLow != 0 ==> all(i, 0, len(entries), ts(entries[i].Key) > DiscLow ==> ex(j, 0, len(r), r[j] == entries[i]))
+//@ ensures DiscLow != 0 ==> all(i, 0, len(entries), ts(entries[i].Key) <= DiscLow ==> ex(j, 0, len(r), uk(r[j].Key) == uk(entries[i].Key) && ts(r[j].Key) <= DiscLow && ts(r[j].Key) >= ts(entries[i].Key)))
+//@ ensures DiscLow != 0 ==> forall(Int(a), Int(b), (0 <= a && a < b && b < len(r)) ==> cmp(r[a].Key, r[b].Key) <= 0)
+//@ ensures all(j, 0, len(r), wf(r[j].Key))
+//@ after_call (*originium.oracle).discardAtOrBelow#0: ghost DiscLow = result
+//@ after_call append#0: ghost ResSrc = store(ResSrc, len(result) - 1, rangeindex)
+//@ after_call mapupdate#0: ghost LatSrc = store(LatSrc, key, rangeindex)
+//@ after_call mapupdate#1: ghost LatSrc = store(LatSrc, key, rangeindex)
+//@ after_call append#1: ghost ResSrc = store(ResSrc, len(result) - 1, LatSrc[uk(entry.Key)])
+//@ after_call slices.SortFunc[[]types.Entry types.Entry]#0: assert all(j, 0, len(res), 0 <= SortSrc[j] && SortSrc[j] < len(res) && 0 <= ResSrc[SortSrc[j]] && ResSrc[SortSrc[j]] < len(entries) && res[j] == entries[ResSrc[SortSrc[j]]] && (ts(res[j].Key) > low || keptBelow(entries, len(entries), low, ResSrc[SortSrc[j]])))
+//@ after_call slices.SortFunc[[]types.Entry types.Entry]#0: assert all(i, 0, len(entries), ts(entries[i].Key) > low ==> ex(j, 0, len(res), res[j] == entries[i]))
+//@ after_call slices.SortFunc[[]types.Entry types.Entry]#0: assert forall(Str(k), has(latest, k) ==> ex(j, 0, len(res), res[j] == latest[k]), trig(dom(latest, k)))
+//@ loop 0:
+//@   invariant low == DiscLow && low != 0 && latest != nil && arrid(res) >= old(alloc) && len(res) <= rangeindex + 1 && arrid(res) != arrid(entries)
+//@   invariant all(j, 0, len(res), 0 <= ResSrc[j] && ResSrc[j] <= rangeindex && res[j] == entries[ResSrc[j]] && ts(res[j].Key) > low)
+//@   invariant all(i, 0, rangeindex + 1, ts(entries[i].Key) > low ==> ex(j, 0, len(res), res[j] == entries[i]))
+//@   invariant forall(Str(k), has(latest, k) ==> (0 <= LatSrc[k] && LatSrc[k] <= rangeindex && latest[k] == entries[LatSrc[k]] && uk(entries[LatSrc[k]].Key) == k && keptBelow(entries, rangeindex + 1, low, LatSrc[k])), trig(dom(latest, k)))
+//@   invariant all(i, 0, rangeindex + 1, ts(entries[i].Key) <= low ==> has(latest, uk(entries[i].Key)))
+//@ loop 1:
+//@   invariant low == DiscLow && low != 0 && latest != nil && arrid(res) >= old(alloc) && arrid(res) != arrid(entries)
+//@   invariant all(j, 0, len(res), 0 <= ResSrc[j] && ResSrc[j] < len(entries) && res[j] == entries[ResSrc[j]] && (ts(res[j].Key) > low || keptBelow(entries, len(entries), low, ResSrc[j])))
+//@   invariant all(i, 0, len(entries), ts(entries[i].Key) > low ==> ex(j, 0, len(res), res[j] == entries[i]))
+//@   invariant forall(Str(k), has(latest, k) ==> (0 <= LatSrc[k] && LatSrc[k] < len(entries) && latest[k] == entries[LatSrc[k]] && uk(entries[LatSrc[k]].Key) == k && keptBelow(entries, len(entries), low, LatSrc[k])), trig(dom(latest, k)))
+//@   invariant all(i, 0, len(entries), ts(entries[i].Key) <= low ==> has(latest, uk(entries[i].Key)))
+//@   invariant forall(Str(k), seen[k] ==> ex(j, 0, len(res), res[j] == latest[k]), trig(seen[k]))
